@@ -64,6 +64,21 @@ def negotiated_max_length(own, peer):
     return min(own, peer)
 
 
+def find_max_length_sub_item(user_data):
+    """Finds Maximum Length sub-item among user information sub-items.
+
+    The sub-items of the User Information item can come in any order (PS3.7 Annex D), so the
+    Maximum Length sub-item is looked up by its type, not by its position.
+
+    :param user_data: list of user information sub-items
+    :return: the first :class:`pynetdicom2.userdataitems.MaximumLengthSubItem` or None
+    """
+    for sub_item in user_data:
+        if isinstance(sub_item, userdataitems.MaximumLengthSubItem):
+            return sub_item
+    return None
+
+
 def build_pres_context_def_list(context_def_list):
     """Builds a list of Presntation Context Items
 
@@ -214,7 +229,11 @@ class AssociationAcceptor(socketserver.StreamRequestHandler, Association):
         of the request sends association response based on
         acceptable_pr_contexts"""
         user_items = assoc_req.variable_items[-1]
-        max_pdu_sub_item = user_items.user_data[0]
+        max_pdu_sub_item = find_max_length_sub_item(user_items.user_data)
+        if max_pdu_sub_item is None:
+            # the requestor announced no maximum length: no limit
+            max_pdu_sub_item = userdataitems.MaximumLengthSubItem(0)
+            user_items.user_data.insert(0, max_pdu_sub_item)
         self.max_pdu_length = negotiated_max_length(
             self.max_pdu_length, max_pdu_sub_item.maximum_length_received)
         max_pdu_sub_item.maximum_length_received = self.max_pdu_length
@@ -403,11 +422,10 @@ class AssociationRequester(Association):
 
         # Get maximum pdu length from answer
         user_data = response.variable_items[-1].user_data
-        try:
+        max_pdu_sub_item = find_max_length_sub_item(user_data)
+        if max_pdu_sub_item is not None:
             self.max_pdu_length = negotiated_max_length(
-                self.max_pdu_length, user_data[0].maximum_length_received)
-        except IndexError:
-            pass
+                self.max_pdu_length, max_pdu_sub_item.maximum_length_received)
 
         # Get accepted presentation contexts
         accepted = (ctx for ctx in response.variable_items[1:-1] if ctx.result_reason == 0)
